@@ -268,6 +268,26 @@ Theorem C10_applied_gates_asis_are_selected_partial :
 Proof. exact replay_asis_is_selected_partial. Qed.
 Print Assumptions C10_applied_gates_asis_are_selected_partial.
 
+(* 14. Shot records (keys of all_frequencies under save_mid_circuit_meas): outcomes of the mid-circuit
+       measurements in order of appearance, then the final register, qubit 0 first — for any number of
+       measurements and qubits; and reading cirq's measurement columns str(0), str(1), ... in NUMERIC key
+       order yields exactly that record whatever the number of keys (10 or more included). *)
+Theorem C10_record_layout :
+  forall n ms x,
+    length (record n ms x) = (length ms + n)%nat
+    /\ firstn (length ms) (record n ms x) = ms
+    /\ (forall q, (q < n)%nat -> nth (length ms + q) (record n ms x) false = N.testbit x (N.of_nat q)).
+Proof. exact record_layout. Qed.
+Print Assumptions C10_record_layout.
+
+Theorem C10_assemble_is_record :
+  forall (meas : nat -> bool) n ms x,
+    (forall i, (i < length ms)%nat -> meas i = nth i ms false) ->
+    (forall q, (q < n)%nat -> meas (length ms + q)%nat = N.testbit x (N.of_nat q)) ->
+    assemble meas (length ms) n = record n ms x.
+Proof. exact assemble_is_record. Qed.
+Print Assumptions C10_assemble_is_record.
+
 (* ---- non-vacuity ---- *)
 (* the repaired loop on the witness, and a repeat-until-success control (stateless function that asks for
    another controlled measurement on outcome 0): outcomes 0,0,1 *)
